@@ -22,6 +22,8 @@ pub struct Diag {
     pub notes: Vec<String>,
     /// Label texts found next to `^^^` / `---` underlines.
     pub labels: Vec<String>,
+    /// Source lines shown in the snippet (`NN │ text`), markers of multi-line labels removed.
+    pub src_lines: Vec<String>,
 }
 
 #[derive(Clone, Debug, PartialEq, Eq)]
@@ -107,7 +109,7 @@ pub fn parse_stdout(text: &str) -> Stdout {
                 out.diags.push(d);
             }
             in_notes = false;
-            cur = Some(Diag { severity, code, message, locs: vec![], notes: vec![], labels: vec![] });
+            cur = Some(Diag { severity, code, message, locs: vec![], notes: vec![], labels: vec![], src_lines: vec![] });
             continue;
         }
         let Some(d) = cur.as_mut() else {
@@ -147,6 +149,10 @@ pub fn parse_stdout(text: &str) -> Stdout {
             // label text after an underline
             if let Some(pos) = t.find('│') {
                 let after = &t[pos + '│'.len_utf8()..];
+                if t.starts_with(|c: char| c.is_ascii_digit()) {
+                    let text = after.trim_start_matches(|c: char| c == ' ' || c == '│' || c == '╭' || c == '╰' || c == '─' || c == '╮' || c == '╯').trim_end();
+                    d.src_lines.push(text.to_string());
+                }
                 let a = after.trim_start_matches(|c: char| c == ' ' || c == '│' || c == '╭' || c == '╰' || c == '─');
                 if a.starts_with('^') || a.starts_with('-') {
                     let txt = a.trim_start_matches(|c: char| c == '^' || c == '-').trim();
